@@ -36,3 +36,21 @@ Definition chk (c : cfg * (N * N) * list lop * list obs) : bool :=
   let s0 := init_caches cf in
   (kind_code (s_live s0) =? kl) && (kind_code (s_nonlive s0) =? kn) &&
   list_eqb obs_eqb (model_obs s0 h) o.
+
+(* ---- order of the atomic sections (second observation of the driver) ----
+   state: verdict map {0, 1}, recency list [1; 0] (0 oldest), capacity 2, key 1 overdue.
+   op 0 = Add 2, 1 = Lookup 0 (fresh), 2 = ClearExpired (reads [1]).
+   observed: (list changed, map changed, returned) while the driver held the map lock, and
+   whether the operation's key is in the map / in the list after it completed. *)
+From CJ Require Import C18.ModelConc.
+Definition sec_state : shared := mkSh [0; 1] [1; 0] 2.
+Definition sec_op (o : N) : cop * N :=
+  match o with 0 => (CAdd 2, 2) | 1 => (CLookup 0 true, 0) | _ => (CClear [1], 1) end.
+Definition chk_sections (c : N * (bool * bool * bool) * (bool * bool)) : bool :=
+  let '(o, (lch, mch, ret), (inmap, inlist)) := c in
+  let '(op, key) := sec_op o in
+  let blocked := match section_lock (mkTh Idle [op]) with Some LMap => true | _ => false end in
+  let '(s', _) := crun (sec_state, [mkTh Idle [op]]) (repeat 0%nat 6) in
+  (* first section needs the map lock => nothing may have happened while it was held *)
+  Bool.eqb blocked (negb (lch || mch || ret)) &&
+  Bool.eqb (mem key (sh_keys s')) inmap && Bool.eqb (mem key (sh_list s')) inlist.
